@@ -28,6 +28,44 @@ def canon(impl, compare, r):
     return d
 
 
+def same_answer(x, y, tol=1e-7):
+    """equality of two canonical answers up to float noise and up to the REPRESENTATION of a polygon / polyhedron result (vertex
+    multiplicities and order depend on set iteration order, which differs between processes): bodies are compared as vertex sets"""
+    if isinstance(x, bool) or isinstance(y, bool):
+        return x is y
+    if isinstance(x, (int, float)) and isinstance(y, (int, float)):
+        return abs(x - y) <= tol * max(1.0, abs(x), abs(y))
+    if isinstance(x, list) and isinstance(y, list):
+        if x and y and x[0] in ('PL', 'L', 'H') and y[0] == x[0] and len(x) == 3 and len(y) == 3:
+            # flats are compared as point sets, not as (support point, direction) pairs
+            def cr(a, b):
+                return (a[1] * b[2] - a[2] * b[1], a[2] * b[0] - a[0] * b[2], a[0] * b[1] - a[1] * b[0])
+
+            def dt(a, b):
+                return sum(u * v for u, v in zip(a, b))
+
+            def small(v, scale):
+                return all(abs(c) <= tol * max(1.0, scale) for c in v)
+            (p1, d1), (p2, d2) = (x[1], x[2]), (y[1], y[2])
+            w = [a - b for a, b in zip(p1, p2)]
+            sc = max(1.0, max(abs(c) for c in list(p1) + list(p2)))
+            n1, n2 = dt(d1, d1) ** 0.5 or 1.0, dt(d2, d2) ** 0.5 or 1.0
+            u1, u2 = [c / n1 for c in d1], [c / n2 for c in d2]
+            if not small(cr(u1, u2), 1.0):
+                return False
+            if x[0] == 'PL':
+                return abs(dt(u1, w)) <= tol * sc
+            if x[0] == 'L':
+                return small(cr(u1, w), sc)
+            return small(w, sc) and dt(u1, u2) > 0
+        if x and y and x[0] in ('G', 'B') and y[0] == x[0]:
+            def near(p, qs):
+                return any(all(abs(a - b) <= tol * max(1.0, abs(a)) for a, b in zip(sorted(p), sorted(q))) for q in qs)
+            return all(near(p, y[1]) for p in x[1]) and all(near(q, x[1]) for q in y[1])
+        return len(x) == len(y) and all(same_answer(a, b, tol) for a, b in zip(x, y))
+    return x == y
+
+
 def evaluate(impl, q, a, b):
     fns = {'intersection': lambda: impl.intersection(a, b), 'in': lambda: a in b, 'distance': lambda: impl.distance(a, b), 'angle': lambda: impl.angle(a, b),
            'parallel': lambda: impl.parallel(a, b), 'orthogonal': lambda: impl.orthogonal(a, b), '==': lambda: a == b,
